@@ -155,6 +155,18 @@ def inverse_topology(outer, update, topology, inverse=None, multi_updates=True):
 
     inverse = inverse or {}
 
+    if '*' not in topology and isinstance(update, dict):
+        # ports that the topology does not mention are wired to the
+        # store of the same name, as they are when read
+        unmentioned = [
+            key for key in update
+            if key not in topology
+            and not (isinstance(key, str) and key.startswith('_'))]
+        if unmentioned:
+            topology = dict(topology)
+            for key in unmentioned:
+                topology[key] = (key,)
+
     for key, path in topology.items():
         if key == '*':
             if isinstance(path, dict):
